@@ -23,26 +23,27 @@ def _shape_feature(hist, idx):
 
 
 def _replay_chunk(args):
-    chunk, = args
+    chunk, layouts = args
     common.import_repo()
     import scikit_tt.tensor_train as tt_mod
     out = []
     calls = 0
     for hist in chunk:
-        def on_v(idx, cat, msg, hist=hist):
-            out.append((idx, cat, msg, hist))
-        calls += pool.replay(tt_mod, hist, on_v)
+        for lay in layouts:
+            def on_v(idx, cat, msg, hist=hist, lay=lay):
+                out.append((idx, cat + (':fortran-cores' if lay == 'F' else ''), msg, hist))
+            calls += pool.replay(tt_mod, hist, on_v, fortran=(lay == 'F'))
     return calls, out
 
 
-def replay_all(cases, signature, rep, procs=None):
+def replay_all(cases, signature, rep, procs=None, layouts=('C',)):
     """Replay all histories in parallel; report violations via rep.  Returns number of API calls."""
     procs = procs or int(__import__('os').environ.get('VERIF_PROCS', '16'))
     n = max(1, min(procs, len(cases) // 50 + 1))
     chunks = [cases[i::n] for i in range(n)]
     calls = 0
     with ProcessPoolExecutor(max_workers=n) as ex:
-        for c, out in ex.map(_replay_chunk, [(ch,) for ch in chunks]):
+        for c, out in ex.map(_replay_chunk, [(ch, layouts) for ch in chunks]):
             calls += c
             for idx, cat, msg, hist in out:
                 rep.violation(signature(hist, idx, cat), msg, dict(kind='pool_history', history=hist, event=idx))
@@ -55,7 +56,7 @@ def default_signature(hist, idx, cat):
     return '%s:%s%s' % (ev['op'], cat, (':' + f) if f else '')
 
 
-def run(pid, tier, runs, assumptions, rule, signature=default_signature, extra_cov=None, traces=None):
+def run(pid, tier, runs, assumptions, rule, signature=default_signature, extra_cov=None, traces=None, layouts=('C',)):
     """runs: list of dicts(constants=..., nshards=..., name=...)."""
     rep = common.Reporter(pid, tier)
     states = trans = 0
@@ -81,7 +82,7 @@ def run(pid, tier, runs, assumptions, rule, signature=default_signature, extra_c
             ops.update(e['op'] for e in c if e['op'] != 'New')
         if cases:
             samples.append(_sample(cases[len(cases) // 2]))
-        calls += replay_all(cases, signature, rep)
+        calls += replay_all(cases, signature, rep, layouts=r.get('layouts', layouts))
     cov = dict(states=states, transitions=trans, traces_validated_against_impl=ncases,
                api_calls_replayed=calls, per_operation=dict(ops), samples=samples, rule=rule,
                exhaustive=True,
